@@ -592,6 +592,7 @@ type peerReactor struct {
 	mu       sync.Mutex
 	held     []func()
 	released bool
+	nodePeer p2p.Peer
 }
 
 // release lets the held answers go (in the order the requests came, lowest heights were asked first).
@@ -632,7 +633,42 @@ func (pr *peerReactor) status(peer p2p.Peer) {
 	pr.sendLater("status", peer, &bcproto.StatusResponse{Base: pr.spec.Base, Height: pr.spec.Height})
 }
 
-func (pr *peerReactor) AddPeer(peer p2p.Peer) { pr.status(peer) }
+func (pr *peerReactor) AddPeer(peer p2p.Peer) {
+	pr.mu.Lock()
+	pr.nodePeer = peer
+	pr.mu.Unlock()
+	if !pr.spec.NoStatus {
+		pr.status(peer)
+	}
+}
+
+// push sends the pusher's unsolicited blocks straight away (not through the scheduler).
+func (pr *peerReactor) push() {
+	pr.mu.Lock()
+	peer := pr.nodePeer
+	pr.mu.Unlock()
+	if peer == nil {
+		return
+	}
+	for _, ht := range pr.spec.Push {
+		blk, _, _ := pr.h.w.build(&PeerSpec{Name: pr.spec.Name, Base: pr.h.w.first, Height: pr.h.w.last, Beh: []BehAt{{H: ht, Kind: pr.spec.PushKind}}}, ht)
+		if blk == nil {
+			continue
+		}
+		pb, err := blk.ToProto()
+		if err != nil {
+			panic(err)
+		}
+		bz, err := bc.EncodeMsg(&bcproto.BlockResponse{Block: pb})
+		if err != nil {
+			panic(err)
+		}
+		pr.h.log.add("pushed", pr.spec.Name, ht, pr.spec.PushKind)
+		if peer.IsRunning() {
+			peer.Send(bcv0.BlockchainChannel, bz)
+		}
+	}
+}
 
 func (pr *peerReactor) RemovePeer(peer p2p.Peer, reason interface{}) {}
 
@@ -647,7 +683,9 @@ func (pr *peerReactor) Receive(chID byte, peer p2p.Peer, msgBytes []byte) {
 func (pr *peerReactor) ReceiveEnvelope(e p2p.Envelope) {
 	switch msg := e.Message.(type) {
 	case *bcproto.StatusRequest:
-		pr.status(e.Src)
+		if !pr.spec.NoStatus {
+			pr.status(e.Src)
+		}
 		pr.h.tick(pr.idx)
 	case *bcproto.BlockRequest:
 		h := msg.Height
